@@ -174,6 +174,11 @@ def replay(ctx, o):
         r = nat.call(so, 'verif_c03_integrate', [m['in_a'], m['in_b'], 1e300, ('i32', 0)], fcb=f)
         lo, hi = min(m['in_a'], m['in_b']), max(m['in_a'], m['in_b']); out = [c[0][0] for c in r.get('calls', []) if not (lo <= c[0][0] <= hi)]
         return bool(out), 'native Integrate on [%r,%r] evaluated the integrand at %s' % (lo, hi, out or 'interior points only')
+    if key == 'C03/acceptance-test':
+        # x^4 on [0,1]: |S2 - S| = 1/128 exactly; with epsilon = (1/128)/20 the estimate differs by 20 epsilon > 15 epsilon, so the top level must not accept (more than the 5 top-level evaluations)
+        D = 1.0 / 128.0; r = nat.call(so, 'verif_c03_integrate', [0.0, 1.0, D / 20.0, ('i32', 6)], fcb=lambda x: x ** 4)
+        if r['status'] != 'ok': return True, 'native Integrate ended: ' + r['status']
+        return len(r['calls']) <= 5, 'native Integrate(x^4, 0, 1, epsilon=%r, depth 6): |S2-S| = %r = 20 epsilon, %d evaluations (5 = accepted at the top level), value %r' % (D / 20.0, D, len(r['calls']), r['ret'])
     if 'a' not in m: return False, 'no model'
     a, b, eps = q2f(m['a']), q2f(m['b']), q2f(m['eps'])
     if 'c' in m:
